@@ -214,6 +214,20 @@ class LineHooks(Hooks):
                             return d[tgt]
             except Exception:
                 pass
+            # the identifier of a line the rule did not name: a name of its
+            # own (its label), different from every identifier in the cell
+            try:
+                from .model import record_table
+                if self.repo.cls("Line") in base.cls.mro and \
+                        getattr(base.cls, "applies_definitions", False):
+                    nf = record_table(self.repo, base.cls).NAME_FIELD
+                    if attr == "name" or (nf and attr == nf):
+                        d = base.attrs.get("_data")
+                        if isinstance(d, dict) and nf in d:
+                            return d[nf]
+                        return "<%s>" % base.label
+            except Exception:
+                pass
         return NotImplemented
 
     def to_str(self, ev, v):
